@@ -311,6 +311,11 @@ func c14Specs() map[string]*c14Spec {
 		{Name: "root", Cmds: []C{dfr(), Fx(5), dfr(), P()}}}}}
 	m["fail-before-any"] = &c14Spec{code: 201, pg: &Prog{Tasks: []*T{
 		{Name: "root", Cmds: []C{Fx(4), dfr(), P()}}}}}
+	// a variable called EXIT_CODE is in scope (a default in vars, a value handed to a reporting
+	// task): the deferred command still sees the code of the command that failed in ITS task
+	m["exit-code-variable-also-defined"] = &c14Spec{code: 201, pg: &Prog{Vars: [][2]string{{"EXIT_CODE", "0"}}, Tasks: []*T{
+		{Name: "root", Cmds: []C{dfr(), {Defer: true, Call: &Ref{Task: "report", Vars: [][2]string{{"EXIT_CODE", "{{.EXIT_CODE}}"}}}}, P(), Fx(9), P()}},
+		{Name: "report", Cmds: []C{dfr(), P(), Fx(4)}}}}}
 	m["ignored-failure"] = &c14Spec{code: 0, pg: &Prog{Tasks: []*T{
 		{Name: "root", Cmds: []C{dfr(), {Exit: 6, IgnoreError: true}, P()}}}}}
 	m["failing-defer"] = &c14Spec{code: 0, pg: &Prog{Tasks: []*T{
